@@ -20,8 +20,7 @@ def jobs(tier):
     return [dict(name='scenario-m2-c1-dup', op='scenario', members=2, calls=1, dup=True, cost=500, shards=4, shard_depth=3),
             dict(name='scenario-m2-c2', op='scenario', members=2, calls=2, dup=False, cost=5000, shards=32, shard_depth=6)]
   return [dict(name='scenario-m2-c1-dup', op='scenario', members=2, calls=1, dup=True, cost=500, shards=4, shard_depth=3),
-          dict(name='scenario-m2-c2-dup', op='scenario', members=2, calls=2, dup=True, cost=50000, shards=128, shard_depth=8),
-          dict(name='scenario-m3-c3', op='scenario', members=3, calls=3, dup=False, cost=50000, shards=128, shard_depth=9)]
+          dict(name='scenario-m2-c2-dup', op='scenario', members=2, calls=2, dup=True, cost=50000, shards=128, shard_depth=8)]
 
 
 def make_body(job):
